@@ -15,6 +15,9 @@
 #define _GNU_SOURCE 1
 #include <assert.h>
 #include <complex.h>
+#ifndef CMPLX	/* glibc hides it from clang */
+#define CMPLX(x, y) __builtin_complex((double)(x), (double)(y))
+#endif
 #include <ctype.h>
 #include <errno.h>
 #include <math.h>
@@ -261,6 +264,7 @@ typedef struct tok {
 
 typedef struct ctx {
     int lineno;
+    int relno;		/* line number within the current case */
     const char *op;
     tok_t *argv;
     int argc;
@@ -547,6 +551,8 @@ static void free_all(void)
 /* ------------------------------------------------------------------ */
 /* ops                                                                 */
 /* ------------------------------------------------------------------ */
+static int retrying = 0;	/* the current line is the retry of a faulted one */
+static int fault_retry = 0;
 #include "ops_misc.inc"
 #include "ops_vnadata.inc"
 #include "ops_prop.inc"
@@ -655,7 +661,6 @@ static int tokenize(char *line, tok_t *tv, int max)
 /* main loop                                                           */
 /* ------------------------------------------------------------------ */
 static int leakcheck = 1;
-static int fault_retry = 0;
 
 static void end_case(void)
 {
@@ -725,6 +730,7 @@ int main(int argc, char **argv)
     size_t cap = 0;
     ssize_t len;
     int lineno = 0;
+    int case_line0 = 0;
     static tok_t tv[MAXTOK];
     ctx_t ctx;
 
@@ -767,6 +773,7 @@ int main(int argc, char **argv)
 	    if (n >= 2 && strcmp(tv[0].s, "!case") == 0) {
 		end_case();
 		snprintf(cur_case, sizeof(cur_case), "%s", tv[1].s);
+		case_line0 = lineno;
 		fprintf(logfp, "{\"case\":\"%s\",\"i\":%d}\n", cur_case, lineno);
 		fflush(logfp);
 	    } else if (n >= 2 && strcmp(tv[0].s, "!watchdog") == 0) {
@@ -778,6 +785,7 @@ int main(int argc, char **argv)
 	    }
 	    continue;
 	}
+	retrying = 0;
 	/* keep a copy for a possible retry under fault injection */
 	char *copy = NULL;
 	if (fault_retry)
@@ -808,6 +816,7 @@ retry:
 	    continue;
 	}
 	c->lineno = lineno;
+	c->relno = lineno - case_line0;
 	c->op = tv[first].s;
 	c->argv = &tv[first + 1];
 	c->argc = n - first - 1;
@@ -854,6 +863,7 @@ retry:
 	    memcpy(line, copy, strlen(copy) + 1);
 	    free(copy);
 	    copy = NULL;
+	    retrying = 1;
 	    goto retry;
 	}
 	free(copy);
